@@ -1433,11 +1433,6 @@ impl fmt::Display for Type2<'_> {
           t2_str.push('\n');
         }
 
-        #[cfg(not(feature = "ast-comments"))]
-        {
-          t2_str.push('\n');
-        }
-
         t2_str.push('}');
 
         write!(f, "{}", t2_str)
@@ -1498,9 +1493,6 @@ impl fmt::Display for Type2<'_> {
         {
           t2_str.push('\n');
         }
-
-        #[cfg(not(feature = "ast-comments"))]
-        t2_str.push('\n');
 
         t2_str.push(']');
 
@@ -2339,6 +2331,9 @@ impl fmt::Display for GroupChoice<'_> {
         gc_str.push(' ');
       }
 
+      #[cfg(not(feature = "ast-comments"))]
+      gc_str.push(' ');
+
       return write!(f, "{}", gc_str);
     }
 
@@ -2747,9 +2742,6 @@ impl fmt::Display for GroupEntry<'_> {
         {
           ge_str.push('\n');
         }
-
-        #[cfg(not(feature = "ast-comments"))]
-        ge_str.push('\n');
 
         ge_str.push(')');
 
